@@ -558,7 +558,7 @@ def build_programs(tier):
     # depth 1, unary: every op variant x every leaf kind
     for kind in kinds:
         leaf = lambda P, kind=kind: Leaf(kind, P)
-        extra = EXTRA_UNARY if (tier != 'quick' or kind in ('cs', 'cl', 'fd', 'dy')) else []
+        extra = EXTRA_UNARY if kind in (('cs', 'cl', 'fd', 'dy') if tier == 'quick' else ('cs', 'fx', 'cl', 'cla', 'fd', 'fdf', 'bd', 'dy')) else []
         for n in unary_variants(MODELLED_UNARY + extra, leaf((2, 3))):
             if n.name == 'squeeze':
                 continue
@@ -569,11 +569,11 @@ def build_programs(tier):
             for n in unary_variants([op_squeeze, op_flatten, op_tile, op_broadcast_to, op_expand_dims], leaf((3,))):
                 add(n)
     # depth 1, binary
-    partners = ['cs', 'cl', 'dy'] if tier == 'quick' else kinds
+    partners = ['cs', 'cl', 'dy'] if tier == 'quick' else ['cs', 'cl', 'cla', 'fd', 'fdh', 'bd', 'dy']
     for k1 in kinds:
         for k2 in partners:
             for (P1, P2) in (((2, 3), (2, 3)), ((2, 3), (1, 3)), ((2, 1), (3,))):
-                if tier == 'quick' and (P1, P2) != ((2, 3), (2, 3)) and k2 not in ('cs', 'dy') and k1 != k2:
+                if (P1, P2) != ((2, 3), (2, 3)) and k2 not in (('cs', 'dy') if tier == 'quick' else ('cs', 'cl', 'fd', 'dy')) and k1 != k2:
                     continue
                 for n in binary_variants([op_add], Leaf(k1, P1), Leaf(k2, P2)):
                     add(n)
@@ -583,13 +583,13 @@ def build_programs(tier):
                     add(n)
             for n in binary_variants([op_concatenate], Leaf(k1, (2, 3)), Leaf(k2, (1, 3))):
                 add(n)
-            if tier != 'quick' or k2 == 'cs':
+            if k2 == 'cs' or (tier != 'quick' and k2 in ('cl', 'fd', 'dy')):
                 for n in binary_variants([op_where], Leaf(k1, (2, 3)), Leaf(k2, (2, 3))):
                     add(n)
                 for n in binary_variants([op_matmul], Leaf(k1, (2, 3)), Leaf(k2, (3, 2))):
                     add(n)
     # depth 2 and 3: sampled compositions
-    n2, n3 = (110, 25) if tier == 'quick' else (1200, 600)
+    n2, n3 = (110, 25) if tier == 'quick' else (450, 220)
     una = MODELLED_UNARY + EXTRA_UNARY
     seen = set(p.text() for p in progs)
 
